@@ -18,7 +18,9 @@ pub struct EdgeTraversal {
 
 impl EdgeTraversal {
     pub fn total_cost(&self) -> Cost {
-        self.access_cost + self.traversal_cost
+        // traversal_cost is stored as (floored total - access_cost); when the access share is
+        // large the floating point sum can cancel to exactly zero, so re-apply the floor
+        Cost::enforce_strictly_positive(self.access_cost + self.traversal_cost)
     }
 }
 
